@@ -125,7 +125,9 @@ def mustAccept (ty : String) (now : Int) (crlOk : Bool) (o : ObjRaw) (issuer : R
 
 def handle (toks : List String) (impl : String) : Verdict :=
   match toks with
-  | ty :: now :: crl :: objf :: rest =>
+  | ty0 :: now :: crl :: objf :: rest =>
+    -- `sor` / `roar`: the same objects decoded in relaxed (BER) mode, the content possibly in several segments
+    let ty := if ty0 = "sor" then "so" else if ty0 = "roar" then "roa" else ty0
     let factToks := rest.takeWhile (· ≠ "|")
     match Driver.C01.parseInt now, factToks.mapM (Driver.C01.parseFacts false) with
     | some now, some raws =>
